@@ -605,11 +605,11 @@ def run_scenario(job: dict) -> list[dict]:
         r1 = lab.run(db1, V1, 1, inj)
     out.append({"hist": [["run", 0]], "role": role_of(inj, 1), "rec": r1})
 
-    def recover(db: Path, hist: list, vers: dict, runno: int, edited: bool):
+    def recover(db: Path, hist: list, vers: dict, runno: int, edited: int):
         edits = job["edits2"] if runno == 2 else job["edits3"]
         for e in edits:
-            if e and edited:
-                continue
+            if e and edited and e != edited:
+                continue  # a second edit only as the revert of the first (as in Backend.tla NextRun)
             if not e and runno >= 3:
                 continue
             d = lab.copy_db(db, "r")
@@ -618,17 +618,17 @@ def run_scenario(job: dict) -> list[dict]:
             h = hist + [["run", e]]
             out.append({"hist": h, "role": "recovery", "rec": r})
             if runno < 3:
-                recover(d, h, v, runno + 1, edited or bool(e))
+                recover(d, h, v, runno + 1, 0 if (edited and e == edited) else (edited or e))
             lab.drop(d)
 
-    recover(db1, [["run", 0]], V1, 2, False)
+    recover(db1, [["run", 0]], V1, 2, 0)
     if job.get("with_import") and r1["outcome"][0] == "ok":
         pre = project(db1, lab.voc)
         dbi = lab.import_into_new(db1, "i")
         post = project(dbi, lab.voc)
         h = [["run", 0], ["import", 0]]
         out.append({"hist": h, "role": "import", "imp": {"pre": pre, "post": post}})
-        recover(dbi, h, V1, 2, False)
+        recover(dbi, h, V1, 2, 0)
         lab.drop(dbi)
     lab.drop(db1)
     for e in out:
